@@ -60,6 +60,19 @@ def case_pp(ctx, cfg):
             if e is not None or not close(d, want):
                 ctx.fail(f"dist:point-point:{dim}d", "dist", {**inputs0, "q": q, "weights": [w1, w2], "order": tag}, want, e if e is not None else d)
                 return
+    # close but distinct points (3e-5 .. 3e-3 apart, dyadic offsets: exactly representable, far from the 1e-8 tolerance)
+    near_offsets = [((2.0**-15,) + (0.0,) * (dim - 1), 2.0**-15), ((3 * 2.0**-16, 4 * 2.0**-16) + (0.0,) * (dim - 2), 5 * 2.0**-16), ((0.0,) * (dim - 1) + (-(2.0**-9),), 2.0**-9), ((2.0**-12,) * dim, 2.0**-12 * math.sqrt(dim))]
+    for k, (off, want) in enumerate(near_offsets):
+        qn = [a + b for a, b in zip(p, off)]
+        for w in (1.0, -2.0):
+            a, b = P(G, p), G.Point(np.array(qn + [1.0]) * w)
+            for x, y, tag in ((a, b, "pq"), (b, a, "qp")):
+                d, e = ctx.call(G.dist, x, y)
+                ctx.trace()
+                ctx.state((dim, p, "near", k, w, tag))
+                if e is not None or not close(d, want, 1e-11):
+                    ctx.fail(f"dist:point-point:{dim}d:close-points", "dist", {**inputs0, "q": qn, "weight": w, "order": tag}, want, e if e is not None else d)
+                    return
     # collection path: p single against all q
     Q = G.PointCollection(np.array([list(q) + [1] for q in pts], dtype=float))
     d, e = ctx.call(G.dist, P(G, p), Q)
@@ -122,6 +135,24 @@ def case_ph(ctx, cfg):
                 same = tuple(h) == tuple(list(p) + [1]) or X.irank([list(h), list(p) + [1]]) == 1
                 ctx.fail(f"dist:point-hyperplane:{dim}d" + (":equal-coordinate-vectors" if same else ""), "dist", {"dim": dim, "hyperplane": h, "p": p, "order": tag}, want, e if e is not None else d)
                 return
+    # points just off the hyperplane (3e-5 .. 2e-3 away): a point of the hyperplane moved by a dyadic step along one axis
+    for p in pts:
+        if sum(a * b for a, b in zip(h, list(p) + [1])) != 0:
+            continue
+        for k in range(dim):
+            if h[k] == 0:
+                continue
+            for step in (2.0**-15, -(2.0**-9)):
+                q = [float(x) for x in p]
+                q[k] += step
+                want = abs(h[k] * step) / nn
+                d, e = ctx.call(G.dist, H, G.Point(np.array(q + [1.0])))
+                ctx.trace()
+                ctx.state((dim, h, p, "near", k, step))
+                if e is not None or not close(d, want, 1e-11):
+                    ctx.fail(f"dist:point-hyperplane:{dim}d:close-to-hyperplane", "dist", {"dim": dim, "hyperplane": h, "p": q}, want, e if e is not None else d)
+                    return
+        break
     # collections
     PC = G.PointCollection(np.array([list(q) + [1] for q in pts], dtype=float))
     d, e = ctx.call(G.dist, H, PC)
